@@ -155,4 +155,17 @@ pub fn explore(ex: &Ex) {
         }
         ex.rep.merge(l);
     }
+    // ... at every label-typed position too (where text is allowed, any text is kept)
+    {
+        let mut l = Local::default();
+        for s in ["", "a", "ES256", "\u{e9}", "a:b", "a/b"] {
+            for pi in &label_positions {
+                let (_name, ty, ctx) = &pos[*pi];
+                let e = ctx(crate::refcbor::Enc::canonical(&Item::text(s)));
+                l.state(1);
+                ex.decode(&mut l, "c17.text", *ty, Entry::Slice, &e.to_bytes());
+            }
+        }
+        ex.rep.merge(l);
+    }
 }
